@@ -42,10 +42,13 @@ pub fn run_block(b: &DecodedDctBlock) -> Result<[[i32; 8]; 8], String> {
     let mut out = [[0i32; 8]; 8];
     let mut lo = [0u8; 64];
     let mut hi = [255u8; 64];
-    let blk = [*b];
+    // `&mut` re-borrows as shared if the routine takes `&[_]`, so either signature builds; a fresh
+    // array per call, in case the routine consumes its input
+    let mut blk = [*b];
+    let mut blk2 = [*b];
     catch(|| {
-        idct_channel(&blk, &mut lo, 1, 8);
-        idct_channel(&blk, &mut hi, 1, 8);
+        idct_channel(&mut blk, &mut lo, 1, 8);
+        idct_channel(&mut blk2, &mut hi, 1, 8);
     })?;
     for y in 0..8 {
         for x in 0..8 {
